@@ -20,12 +20,16 @@ type c12Case struct {
 	Pts   []ref.F `json:"pts"`           // a1x a1y a2x a2y b1x b1y b2x b2y
 	Exact bool    `json:"representable"` // inputs on an exactly representable grid: also check the non-robust strategy
 	Class bool    `json:"classification_only,omitempty"`
+	// Shared: end points that are equal as values are handed over as the SAME geom.Coord (the very
+	// same two floats in memory, as two consecutive segments of one line string are), not as equal
+	// copies
+	Shared bool `json:"shared_storage,omitempty"`
 }
 
 func init() {
 	engine.Register(&engine.Check{
 		ID: "C12", Level: "exploration",
-		Rule:        "every ordered pair of non-degenerate directed segments on the 6x6 (quick) / 7x7 (thorough) integer grid (all argument orders and directions, all 16 envelope-membership combinations of the collinear branch), each also scaled by 2^20 and translated by (2^20,-2^19); plus a T-junction/touching lattice on rough integer coordinates up to 2^21 (an endpoint exactly on the other segment, all 8 role/direction variants; the endpoint must be returned bit-identical); plus +-1 ulp perturbations of touching / T-junction / collinear configurations with non-trivial mantissas (classification only). Oracle: exact rational classification none/point/overlap; endpoint intersections returned bit-identical; proper crossings within 8 ulps of (|x|+|y|+scale); overlap endpoints exact; NonRobustLineIntersector.HasIntersection = exact on grid inputs. distinct_nontrivial = distinct pairs whose segments intersect or whose envelopes overlap Also: lean T-junction probes (~3*10^6, classification only) over the near-collinear float families of C10; ~1000 exactly axis-parallel segments crossed properly by rough segments on grids [-2^k,2^k], k=17..20 (8 role/direction variants); long segments crossing at an angle of ~1e-6 on the 2^20 grid (8 symmetries x 8 role/direction variants, position within 8 ulps), and nearly coincident segments (each ordinate -2..2 ulps off) reaching the fallback paths (classification; reported point within rounding of both envelopes).",
+		Rule:        "every ordered pair of non-degenerate directed segments on the 6x6 (quick) / 7x7 (thorough) integer grid (all argument orders and directions, all 16 envelope-membership combinations of the collinear branch), each also scaled by 2^20 and translated by (2^20,-2^19); plus a T-junction/touching lattice on rough integer coordinates up to 2^21 (an endpoint exactly on the other segment, all 8 role/direction variants; the endpoint must be returned bit-identical); plus +-1 ulp perturbations of touching / T-junction / collinear configurations with non-trivial mantissas (classification only). Oracle: exact rational classification none/point/overlap; endpoint intersections returned bit-identical; proper crossings within 8 ulps of (|x|+|y|+scale); overlap endpoints exact; NonRobustLineIntersector.HasIntersection = exact on grid inputs. distinct_nontrivial = distinct pairs whose segments intersect or whose envelopes overlap Also: every pair of consecutive segments of a path over the 5x5 grid with the common end point handed over as ONE coordinate in memory; lean T-junction probes (~3*10^6, classification only) over the near-collinear float families of C10; ~1000 exactly axis-parallel segments crossed properly by rough segments on grids [-2^k,2^k], k=17..20 (8 role/direction variants); long segments crossing at an angle of ~1e-6 on the 2^20 grid (8 symmetries x 8 role/direction variants, position within 8 ulps), and nearly coincident segments (each ordinate -2..2 ulps off) reaching the fallback paths (classification; reported point within rounding of both envelopes).",
 		Run:         c12Run,
 		Replay:      func(c *engine.Ctx, kind string, raw json.RawMessage) { c12Exec(c, decodeCase[c12Case](raw)) },
 		Assumptions: []string{"segments of non-zero length; grid inputs make every intermediate of the homogeneous-coordinate computation exact, so only the final division and re-translation round"},
@@ -41,7 +45,17 @@ func c12Exec(c *engine.Ctx, cs c12Case) {
 	fail := func(what, desc string) {
 		c.Violate("intersect/"+what, fmt.Sprintf("%s; A=(%v,%v)-(%v,%v) B=(%v,%v)-(%v,%v)", desc, a1.X, a1.Y, a2.X, a2.Y, b1.X, b1.Y, b2.X, b2.Y), "c12", cs)
 	}
-	co := func(p ref.P2) geom.Coord { return geom.Coord{p.X, p.Y} }
+	shared := map[ref.P2]geom.Coord{}
+	co := func(p ref.P2) geom.Coord {
+		if cs.Shared {
+			if c, ok := shared[p]; ok {
+				return c
+			}
+			shared[p] = geom.Coord{p.X, p.Y}
+			return shared[p]
+		}
+		return geom.Coord{p.X, p.Y}
+	}
 	var res, nr lineintersection.Result
 	if pn, _ := engine.Guard(func() {
 		res = lineintersector.LineIntersectsLine(lineintersector.RobustLineIntersector{}, co(a1), co(a2), co(b1), co(b2))
@@ -332,6 +346,36 @@ func c12Run(c *engine.Ctx) {
 				}
 				c.Count("long_small_angle_cases", 1)
 				c12Exec(c, c12Case{Pts: []ref.F{ref.F(a1[0]), ref.F(a1[1]), ref.F(a2[0]), ref.F(a2[1]), ref.F(b1[0]), ref.F(b1[1]), ref.F(b2[0]), ref.F(b2[1])}})
+			}
+		}
+	})
+	// consecutive segments of one path: every triple (a,b,c) of the 5x5 grid as the segments a-b
+	// and b-c, a-b and a-c, a-b and c-b, a-b and c-a, the common end point being ONE coordinate in
+	// memory (fold-backs c on a-b are collinear overlaps, whoever owns the floats)
+	var g5 [][2]float64
+	for x := 0; x < 5; x++ {
+		for y := 0; y < 5; y++ {
+			g5 = append(g5, [2]float64{float64(x), float64(y)})
+		}
+	}
+	c.Parallel(len(g5), func(i int) {
+		a := g5[i]
+		for _, b := range g5 {
+			if a == b {
+				continue
+			}
+			for _, d := range g5 {
+				f := func(p, q, r, s [2]float64) {
+					if r == s {
+						return
+					}
+					c.Count("shared_endpoint_cases", 1)
+					c12Exec(c, c12Case{Pts: []ref.F{ref.F(p[0]), ref.F(p[1]), ref.F(q[0]), ref.F(q[1]), ref.F(r[0]), ref.F(r[1]), ref.F(s[0]), ref.F(s[1])}, Exact: true, Shared: true})
+				}
+				f(a, b, b, d)
+				f(a, b, a, d)
+				f(a, b, d, b)
+				f(a, b, d, a)
 			}
 		}
 	})
